@@ -934,6 +934,48 @@ def misc_bugclasses(prog, cfg_of_):
                             f"differ only in case / surrounding blanks ('Web' and 'web', 'db ' and 'db') become the same "
                             f"identifier - the wrong object is found, an index entry is overwritten, or the name read "
                             f"back differs from the one written"))
+    # FLOORBATCH: `len(xs) // k` batches of size k cover len(xs) elements only when k divides it: the trailing partial
+    # batch is never processed (ceil division / range(0, len(xs), k) is the complete form)
+    for f in prog.all_funcs():
+        if f.module.generated:
+            continue
+        floors = [n for n in own_nodes(f.node) if isinstance(n, ast.BinOp) and isinstance(n.op, ast.FloorDiv)
+                  and isinstance(n.left, ast.Call) and isinstance(n.left.func, ast.Name) and n.left.func.id == 'len'
+                  and n.left.args and isinstance(n.left.args[0], ast.Name)]
+        for fl in floors:
+            xs = fl.left.args[0].id
+            sliced = [s_ for s_ in own_nodes(f.node) if isinstance(s_, ast.Subscript) and isinstance(s_.value, ast.Name)
+                      and s_.value.id == xs and isinstance(s_.slice, ast.Slice) and s_.slice.upper is not None
+                      and any(isinstance(b, ast.BinOp) and isinstance(b.op, ast.Mult) for b in ast.walk(s_.slice))]
+            compensated = any(isinstance(n, ast.BinOp) and isinstance(n.op, ast.Mod) and isinstance(n.left, ast.Call)
+                              and stmt_text(n.left) == stmt_text(fl.left) for n in own_nodes(f.node)) or \
+                any(isinstance(n, ast.Call) and stmt_text(n.func).endswith('ceil') for n in own_nodes(f.node))
+            if sliced and not compensated:
+                out.append((f, fl, 'FLOORBATCH',
+                            f"'{stmt_text(fl, 50)}' counts whole batches only and '{stmt_text(sliced[0], 50)}' walks that "
+                            f"many: when len({xs}) is not a multiple of the batch size the last, partial batch is never "
+                            f"processed - those elements are silently left out"))
+    # LOOKUPSHORT: get_<thing>_by_id / _by_name answers from the container of <thing>s; a shortcut `return None` decided
+    # by ANOTHER container (ids of assets when attackers are looked up ..) assumes a relation between the two that the
+    # API does not keep (explicit ids may coincide)
+    import re as _re
+    for f in prog.all_funcs():
+        if f.module.generated or not _re.fullmatch(r'get_\w+_by_(id|name|full_name)', f.name) or f.self_name is None:
+            continue
+        sn_ = f.self_name
+        selfattrs = [x for x in own_nodes(f.node) if isinstance(x, ast.Attribute) and isinstance(x.value, ast.Name)
+                     and x.value.id == sn_ and isinstance(x.ctx, ast.Load)]
+        for g in own_nodes(f.node):
+            if isinstance(g, ast.If) and len(g.body) == 1 and isinstance(g.body[0], ast.Return) and (
+                    g.body[0].value is None or (isinstance(g.body[0].value, ast.Constant) and g.body[0].value.value is None)):
+                tested = {x.attr for x in ast.walk(g.test) if isinstance(x, ast.Attribute) and isinstance(x.value, ast.Name)
+                          and x.value.id == sn_}
+                searched = {x.attr for x in selfattrs if not any(x is y for y in ast.walk(g.test))}
+                if tested and searched and not (tested & searched):
+                    out.append((f, g, 'LOOKUPSHORT',
+                                f"'if {stmt_text(g.test, 50)}: return None' answers a lookup in {sorted(searched)} from "
+                                f"{sorted(tested)}: nothing keeps the two containers disjoint / in step (explicitly requested "
+                                f"ids may coincide), so an existing element is reported as missing"))
     # STRIPSET: str.strip / lstrip / rstrip take a SET of characters, not a prefix / suffix: `s.rstrip('.attacker')`
     # goes on removing any of . a t c k e r from the end ('write.attacker' -> 'wri')
     for f in prog.all_funcs():
